@@ -97,8 +97,8 @@ func (m *Model) mayDemoteRec(f *ssa.Function, spec map[string]bool, onStack map[
 				if la.MustBefore(in)[m.implMuW()] {
 					for _, l := range facts[b] {
 						if !l.Truth && m.isClaimLoadSym(l.S) {
-							if ld, ok := l.S.V.(*ssa.Call); ok && ld.Parent() == f && la.MustBefore(ld)[m.implMuW()] {
-								noop = true
+							if ld, ok := l.S.V.(*ssa.Call); ok && (ld.Parent() == f || containsFn(m.bodyFns(f), ld.Parent())) && la.MustBefore(ld)[m.implMuW()] {
+								noop = true // read in f, or in a phase of f's critical section (one call site)
 							}
 						}
 					}
@@ -203,6 +203,49 @@ func (m *Model) returnsPrevClaim(f *ssa.Function, depth int) bool {
 				continue
 			}
 			return false
+		case *ssa.Extract:
+			// the value comes out of a phase of f's critical section that lives in a function of its
+			// own (one call site): there it is the claim as loaded under the write lock, or false
+			hc, isCall := x.Tuple.(*ssa.Call)
+			if !isCall {
+				return false
+			}
+			h := hc.Call.StaticCallee()
+			if h == nil || !m.isLib(h) || h.Blocks == nil || len(m.callers[h]) != 1 {
+				return false
+			}
+			okAll, some := true, false
+			for _, hb := range liveBlocks(h) {
+				hret, isRet := hb.Instrs[len(hb.Instrs)-1].(*ssa.Return)
+				if !isRet || hb == h.Recover || x.Index >= len(hret.Results) {
+					continue
+				}
+				hv := returnValue(hret, x.Index)
+				if k, isC := constBool(hv); isC {
+					if k {
+						okAll = false
+					}
+					continue
+				}
+				ld, isLd := hv.(*ssa.Call)
+				if !isLd || !m.isClaimLoadSym(m.Sym.Of(ld)) || !la.MustBefore(ld)[m.implMuW()] {
+					okAll = false
+					continue
+				}
+				some = true
+			}
+			if !okAll || !some {
+				return false
+			}
+			// the clear follows the phase, under the same write-lock hold
+			if !la.MustBefore(hc)[m.implMuW()] || reachableAfter(hc, func(in ssa.Instruction) bool {
+				val, isConst, ok := m.claimStore(in)
+				return ok && isConst && !val && la.MustBefore(in)[m.implMuW()]
+			}) == nil {
+				return false
+			}
+			any = true
+			continue
 		default:
 			return false
 		}
